@@ -758,7 +758,7 @@ func (c *caseSpec) execute(wantInvoked int) *observation {
 	}()
 	if obs.buildErr == "" && c.usesGo {
 		// goroutines started by `go` may still be running
-		for i := 0; i < 200 && len(rec.set()) < wantInvoked; i++ {
+		for i := 0; i < 3000 && len(rec.set()) < wantInvoked; i++ { // (only waits while something is missing)
 			time.Sleep(time.Millisecond)
 		}
 	}
@@ -1021,6 +1021,9 @@ func runC19(c *hx.Ctx) error {
 	if os.Getenv("VERIF_REPO") != "" {
 		res.Notes = append(res.Notes, "built against "+filepath.Clean(os.Getenv("VERIF_REPO")))
 	}
+	if os.Getenv("VERIF_C19_STREAM") == "runs" { // (debugging aid: the run-histories stream alone)
+		return runHistories(c)
+	}
 	n := c.N(4000, 60000)
 	cases := make([]*caseSpec, n)
 	lines := make([]string, n)
@@ -1089,5 +1092,5 @@ func runC19(c *hx.Ctx) error {
 			}
 		}
 	}
-	return nil
+	return runHistories(c)
 }
